@@ -109,6 +109,12 @@ def cases(tier, rng):
             if v >= 1:   # an item longer than a whole bar that starts mid-bar would need two splits: outside the stated behaviour
                 yield Case("track.run", ["none", [["add", C4, 4], ["from_chords", cl, v]]], "from_chords/offset", kind=("from_chords_off", v))
         yield Case("track.run", ["Piano", [["from_chords", cl, 1]]], "from_chords/instrument", kind=("from_chords", 1))
+    # nesting that takes an item's value past a 128th: short top-level values, and eight levels down from a whole note
+    deep = "C"
+    for _ in range(8):
+        deep = [deep, None]
+    for cl, v in ((["C", ["F", "G"]], 128), ([["C", "G"], "Am"], 64), ([["C", ["F", None]], "Dm"], 64), ([["C", "G"]], 128), ([deep], 1), ([deep, "G"], 2)):
+        yield Case("track.run", ["none", [["from_chords", cl, v]]], "from_chords/very-short", kind=("from_chords", v))
     # bars added one after the other (the first stays empty), and a bar added right after a refused note
     for instr in ("none", "Piano"):
         yield Case("track.run", [instr, [["add_bar", "C", 4, 4], ["add_bar", "G", 3, 4], ["add_bar", "D", 6, 8], ["add", C4, 8]]],
